@@ -97,7 +97,7 @@ var c16Progs = []c16Prog{
 	{"ifonce", "p_ifonce.vuego", map[string]int{"OI": 1}, nil, "", nil},
 	{"strself", "p_strself.vuego", map[string]int{"OZ": 1, "OZ2": 1}, nil, `<b v-once>OX</b><template include="p_strself.vuego"></template><b v-once>OY</b><template include="p_strself.vuego"></template>`, map[string]int{"OX": 1, "OY": 1, "OZ": 1, "OZ2": 1}},
 	{"forifonce", "p_forifonce.vuego", map[string]int{"OG": 1, "OH": 1, "OK": 1}, nil, "", nil},
-	{"layslot", "p_layslot.vuego", nil, map[string]int{"LA": 2, "LB": 2}, "", nil}, // once in the page content, once in the layout slot
+	{"layslot", "p_layslot.vuego", nil, map[string]int{"LA": 1, "LB": 1}, "", nil}, // in the layout slot (not a second time in the page content)
 	{"elsefor", "p_elsefor.vuego", map[string]int{"OL1": 1, "OL2": 1, "OL3": 1}, nil, "", nil},
 	{"elsefor2", "p_elsefor2.vuego", map[string]int{"OL4": 1}, nil, "", nil},
 	{"tmplonce", "p_tmplonce.vuego", map[string]int{"OR": 1}, nil, "", nil},
